@@ -4,7 +4,7 @@ from __future__ import annotations
 from vf import cal
 from vf.symx import AND, OR, NOT, IMPLIES, IFF, ite, PathAbort
 from .common import (sym_wall, make_zone, resolve_wall, render, wall_s, off_seconds, exc_name, fields,
-                     sym_offset, mixed_amount)
+                     sym_offset, mixed_amount, valid_source as _source)
 
 ID = "C03"
 FUNCTIONS = [
@@ -27,29 +27,6 @@ REACH = ["crosses a transition forward", "crosses a transition backward", "lands
          "starts in overlap fold=0", "naive", "out of range raises"]
 
 
-def _source(ctx, kind, ylo, yhi, ntrans):
-    """a valid aware (or naive) DateTime and its contract data: (x, tz, Ts, offs, u_seconds, us)"""
-    P = ctx.P
-    y, m, d, h, mi, s, us = sym_wall(ctx, "x", ylo, yhi)
-    w = cal.ymd2ord(y, m, d) * 86400 + cal.sod(h, mi, s)
-    if kind == "naive":
-        return P.DateTime(y, m, d, h, mi, s, us), None, [], [0], w, us
-    if kind == "utc":
-        return P.DateTime(y, m, d, h, mi, s, us, tzinfo=P.UTC), P.UTC, [], [0], w, us
-    if kind == "fixed":
-        off = sym_offset(ctx, "f")
-        tz = ctx.fixed_zone(off, "Verif/F")
-        return P.DateTime(y, m, d, h, mi, s, us, tzinfo=tz), tz, [], [off], w - off, us
-    tz, Ts, offs = make_zone(ctx, "Verif/A", cal.ymd2ord(y, m, d), ntrans)
-    fold = ctx.int("fold", 0, 1)
-    w_out, off, nvalid = resolve_wall(w, Ts, offs, fold == 1)
-    ctx.assume(nvalid >= 1)                   # the wall time exists
-    ctx.assume(IMPLIES(nvalid == 1, fold == 0))   # fold is only set inside an overlap
-    x = P.DateTime(y, m, d, h, mi, s, us, tzinfo=tz, fold=fold)
-    ctx.reach("starts in overlap fold=0", AND(nvalid == 2, fold == 0))
-    return x, tz, Ts, offs, w - off, us
-
-
 def _check_result(ctx, r, tz, Ts, offs, u_exp, us_exp, label):
     """r must be the contract rendering of instant (u_exp seconds, us_exp microseconds)"""
     ew, eoff, efold = render(u_exp, Ts, offs)
@@ -63,8 +40,8 @@ def _check_result(ctx, r, tz, Ts, offs, u_exp, us_exp, label):
         ctx.claim(f"{label}: stays naive", r.tzinfo is None)
 
 
-def add_units(ctx, kind, days, ylo, yhi, ntrans=1, signs=(0, 0, 0, 0), method="add", units="hmsu"):
-    x, tz, Ts, offs, u, us = _source(ctx, kind, ylo, yhi, ntrans)
+def add_units(ctx, kind, days, ylo, yhi, ntrans=1, signs=(0, 0, 0, 0), method="add", units="hmsu", shape=None):
+    x, tz, Ts, offs, u, us = _source(ctx, kind, ylo, yhi, ntrans, shape)
     hours = mixed_amount(ctx, "hours", "h", days, neg=bool(signs[0])) if "h" in units else 0
     minutes = mixed_amount(ctx, "minutes", "m", days, neg=bool(signs[1])) if "m" in units else 0
     seconds = mixed_amount(ctx, "seconds", "s", days, neg=bool(signs[2])) if "s" in units else 0
@@ -88,8 +65,8 @@ def add_units(ctx, kind, days, ylo, yhi, ntrans=1, signs=(0, 0, 0, 0), method="a
     ctx.observe("r", fields(r) + [off_seconds(r), r.fold])
 
 
-def timedelta_ops(ctx, kind, op, days, ylo, yhi, ntrans=1):
-    x, tz, Ts, offs, u, us = _source(ctx, kind, ylo, yhi, ntrans)
+def timedelta_ops(ctx, kind, op, days, ylo, yhi, ntrans=1, shape=None):
+    x, tz, Ts, offs, u, us = _source(ctx, kind, ylo, yhi, ntrans, shape)
     d = ctx.int("td_d", -days, days)
     s = ctx.int("td_s", 0, 86399)
     m = ctx.int("td_us", 0, 999999)
@@ -163,16 +140,21 @@ def cases(tier):
                 methods, w = ("add",), (2000, 2000)
             for units, sg in combos:
               for method in methods:
-                out.append(dict(name=f"{method} {kind}{nt if kind == 'zone' else ''} units={units} signs={''.join('-' if x else '+' for x in sg)}",
+               for shape in (("gap", "overlap") if kind == "zone" else (None,)):
+                out.append(dict(name=f"{method} {kind}{nt if kind == 'zone' else ''} {shape or ''} units={units} signs={''.join('-' if x else '+' for x in sg)}",
                                 fn=add_units, params=dict(kind=kind, days=dd, ylo=w[0], yhi=w[1], ntrans=nt, signs=sg,
-                                                          method=method, units=units),
+                                                          method=method, units=units, shape=shape),
                                 bounds=f"every valid DateTime ({kind}) in years {w[0]}..{w[1]}, both folds x units {units} of "
                                        f"hours/minutes/seconds/microseconds (signs {sg}: 1 = negative) each spanning up to {dd} days"
                                        + (f" x every zone with {nt} transition(s) within +-400 days" if kind == "zone" else "")))
     for kind in ("zone", "utc", "naive"):
         for op in ("add", "radd", "sub"):
-            out.append(dict(name=f"timedelta {op} {kind}", fn=timedelta_ops,
-                            params=dict(kind=kind, op=op, days=min(days, 99000), ylo=win[0], yhi=win[1]),
+          if tier == "quick" and kind == "zone" and op == "radd":
+              continue            # __radd__ is __add__; decided on utc/naive in the quick tier
+          for shape in (("gap", "overlap") if kind == "zone" else (None,)):
+            w = (2000, 2000) if (tier == "quick" and kind == "zone") else win
+            out.append(dict(name=f"timedelta {op} {kind} {shape or ''}", fn=timedelta_ops,
+                            params=dict(kind=kind, op=op, days=min(days, 99000), ylo=w[0], yhi=w[1], shape=shape),
                             bounds=f"every valid DateTime ({kind}) in years {win[0]}..{win[1]} x every native timedelta with "
                                    f"|days| <= {min(days, 99000)} (float path: total_seconds() < 2^33 s)"))
     for edge in ("min", "max"):
